@@ -139,3 +139,5 @@ func readNDJSONRaw(path string, each func([]byte) error) error {
 func messagesPrincipal(comps ...string) types.PrincipalName {
 	return types.PrincipalName{NameType: 2, NameString: comps}
 }
+
+func bufioWriter(f *os.File) *bufio.Writer { return bufio.NewWriterSize(f, 1<<16) }
